@@ -139,7 +139,9 @@ def produce_launch(spec: Dict[str, Any], tdir: str) -> List[List[Dict[str, Any]]
     recs = {f: tracelib.read_jsonl(os.path.join(tdir, out, f))["records"] for f in files}
     rs_file = [f for f in files if "runspace-" in f]
     run_files = sorted([f for f in files if f not in rs_file], key=lambda f: recs[f][0].get("run_space_index", 0))
-    rsr = recs[rs_file[0]] if rs_file else []
+    # the driver re-opens the run-space file (with a fresh timestamp in its name) after every run closes it,
+    # so the start and end records may live in two files
+    rsr = [r for f in rs_file for r in recs[f]]
     starts = [r for r in rsr if r["record_type"] == "run_space_start"]
     ends = [r for r in rsr if r["record_type"] == "run_space_end"]
     return [starts] + [recs[f] for f in run_files] + [ends]
